@@ -289,6 +289,22 @@ func (m *mtable) inDomain(op sim.Op) bool {
 					return false
 				}
 			}
+			// the rows below that continue this merge must hold the continuation at the same physical index
+			// (a horizontal merge in such a row after the vertical merge moves it: listed finding unmerge-vmerge-shifted-row)
+			for r := a + 1; r < len(m.rows); r++ {
+				found := false
+				for k := range m.rows[r] {
+					if m.gridCol(r, k) == g && m.rows[r][k].vm == "continue" {
+						found = true
+						if k != b {
+							return false
+						}
+					}
+				}
+				if !found {
+					break
+				}
+			}
 		}
 		return true
 	}
@@ -830,6 +846,7 @@ func (c09) Witnesses() []*sim.Case {
 		mk("vertical merge across rows of different physical length", mh(0, 0, 1), sim.Op{K: "t.mergev", I: []int{0, 0, 1, 1}}),
 		mk("row inserted inside a vertical merge", sim.Op{K: "t.mergev", I: []int{0, 0, 2, 0}}, sim.Op{K: "t.insrow", I: []int{0, 1}, S: []sim.Str{"x"}}),
 		mk("row that starts a vertical merge deleted", sim.Op{K: "t.mergev", I: []int{0, 0, 2, 0}}, sim.Op{K: "t.delrow", I: []int{0, 0}}),
+		mk("unmerge of a vertical merge one of whose rows was shortened afterwards", sim.Op{K: "t.mergev", I: []int{0, 0, 1, 2}}, mh(1, 0, 1), sim.Op{K: "t.unmerge", I: []int{0, 0, 2}}),
 		mk("CopyTable shares state", sim.Op{K: "t.copy", I: []int{0}}),
 	}
 }
